@@ -123,8 +123,158 @@ def progress_blocks(fn, consuming):
     return out
 
 
+def must_consume_fns(crate, fn_pred, consuming):
+    """Local helpers every normal return of which is preceded by a consuming call (`fn eat_list_dot(&mut self)`
+    = eat_char + peek): calling one is progress for the caller's loop.  Fixpoint over helpers of helpers."""
+    consuming = list(consuming)
+    found = set()
+    for _round in range(4):
+        new = set()
+        for fn in crate.fns:
+            if fn.kind == "closure" or fn.path in found or fn.path in consuming or not fn_pred(fn):
+                continue
+            if cfg.natural_loops(fn):
+                continue
+            prog = progress_blocks(fn, consuming)
+            if not prog:
+                continue
+            rets = [bi for bi, b in enumerate(fn.blocks) if b["term"]["k"] == "return" and not fn.is_cleanup(bi)]
+            # can a return be reached from the entry without passing a progress block?
+            seen, work = set(), [0]
+            escaped = False
+            while work:
+                x = work.pop()
+                if x in seen or x in prog or fn.is_cleanup(x):
+                    continue
+                seen.add(x)
+                if x in rets:
+                    escaped = True
+                    break
+                work.extend(fn.succ_map()[x])
+            if not escaped and rets:
+                new.add(fn.path)
+        if not new:
+            break
+        found |= new
+        consuming += sorted(new)
+    return found
+
+
+def _switch_root(fn, defs, op):
+    """Base local a switch operand is a plain copy of (through single-definition temporaries)."""
+    for _ in range(8):
+        if op.get("c") not in ("copy", "move") or op["pl"]["p"]:
+            return None
+        l = op["pl"]["l"]
+        ds = defs.get(l, [])
+        if len(ds) == 1 and ds[0][1] != "term" and ds[0][2]["k"] == "use" and ds[0][2]["op"].get("c") in ("copy", "move") \
+                and not ds[0][2]["op"]["pl"]["p"]:
+            op = ds[0][2]["op"]
+            continue
+        if len(ds) != 1:
+            return None
+        # the variant of an Option / Result local, whether read as a discriminant or through is_some()/is_none()
+        if ds[0][1] != "term" and ds[0][2]["k"] == "discr" and not ds[0][2]["pl"]["p"]:
+            return ("variant", ds[0][2]["pl"]["l"], False)
+        if ds[0][1] == "term":
+            t = ds[0][2]
+            p = t["callee"].get("path", "")
+            if p in ("std::option::Option::<T>::is_some", "std::option::Option::<T>::is_none",
+                     "std::result::Result::<T, E>::is_ok", "std::result::Result::<T, E>::is_err") and t["args"]:
+                o = common.origin(fn, defs, t["args"][0])
+                base = None
+                if o["k"] == "place" and not [e for e in o["pl"]["p"] if e != "*"]:
+                    base = o["pl"]["l"]
+                elif o["k"] in ("call", "multi", "agg", "other"):
+                    a = t["args"][0]
+                    # `&local`: the reference's single definition
+                    rl = common.place_local(a)
+                    rd = defs.get(rl, []) if rl is not None else []
+                    if len(rd) == 1 and rd[0][1] != "term" and rd[0][2]["k"] == "ref" and not rd[0][2]["pl"]["p"]:
+                        base = rd[0][2]["pl"]["l"]
+                if base is not None:
+                    # Option: None = 0, Some = 1 (is_some: same, is_none: flipped); Result: Ok = 0 (is_ok: flipped)
+                    flip = p.endswith("is_none") or p.endswith("is_ok")
+                    return ("variant", base, flip)
+            return None
+        return l
+    return None
+
+
+def feasible_cycle(fn, blocks, head, cap=20000):
+    """A simple cycle through `head` inside `blocks` whose branch decisions on one and the same single-assignment
+    local agree, or None.  (Depth-first enumeration; gives up - returning the last candidate - after `cap` steps.)"""
+    defs = common.defs_of(fn)
+    sm = fn.succ_map()
+    steps = [0]
+    roots = {}
+    for x in blocks:
+        t = fn.blocks[x]["term"]
+        if t["k"] == "switch":
+            r = _switch_root(fn, defs, t["op"])
+            if r is not None:
+                roots[x] = r
+
+    def decision(x, nxt):
+        t = fn.blocks[x]["term"]
+        flip = isinstance(roots[x], tuple) and roots[x][2]
+        fv = (lambda v: 1 - v if v in (0, 1) else v) if flip else (lambda v: v)
+        vals = [v for v, tg in t["targets"] if tg == nxt]
+        if nxt == t["otherwise"] and not vals:
+            tv = frozenset(fv(v) for v, _ in t["targets"])
+            if isinstance(roots[x], tuple) and len(tv) == 1 and next(iter(tv)) in (0, 1):
+                return ("is", 1 - next(iter(tv)))        # two-variant enum / bool: not 0 means 1
+            return ("not", tv)
+        if len(vals) == 1 and nxt != t["otherwise"]:
+            return ("is", fv(vals[0]))
+        return None
+
+    def consistent(known, root, d):
+        for k in known.get(root, ()):
+            if k[0] == "is" and d[0] == "is" and k[1] != d[1]:
+                return False
+            if k[0] == "is" and d[0] == "not" and k[1] in d[1]:
+                return False
+            if k[0] == "not" and d[0] == "is" and d[1] in k[1]:
+                return False
+        return True
+
+    last = [None]
+
+    def dfs(x, pathl, onpath, known):
+        steps[0] += 1
+        if steps[0] > cap:
+            return last[0] or pathl
+        for nxt in sm[x]:
+            if nxt not in blocks:
+                continue
+            k2 = known
+            if x in roots:
+                d = decision(x, nxt)
+                if d is not None:
+                    rk = roots[x][:2] if isinstance(roots[x], tuple) else roots[x]
+                    if not consistent(known, rk, d):
+                        continue
+                    k2 = dict(known)
+                    k2[rk] = known.get(rk, ()) + (d,)
+            if nxt == head:
+                return pathl + [head]
+            if nxt in onpath:
+                continue
+            r = dfs(nxt, pathl + [nxt], onpath | {nxt}, k2)
+            if r is not None:
+                return r
+        return None
+
+    return dfs(head, [head], {head}, {})
+
+
 def loops_check(rule, crate, fn_pred, consuming, exceptions):
     n = 0
+    helpers = must_consume_fns(crate, fn_pred, consuming)
+    if helpers:
+        rule.note("helpers that consume input on every return: %s" % sorted(x.rsplit("::", 1)[-1] for x in helpers))
+    consuming = list(consuming) + sorted(helpers)
     for fn in crate.fns:
         if not fn_pred(fn):
             continue
@@ -138,6 +288,10 @@ def loops_check(rule, crate, fn_pred, consuming, exceptions):
             succ = lambda x: [s for s in fn.succ_map()[x] if s in rest]
             # a cycle through the header that avoids every progress block?
             cyc = cfg.find_cycle(rest, succ)
+            if cyc is not None:
+                # the cycle found may be infeasible: it may take the `true` edge of one test of a flag and the
+                # `false` edge of another test of the same flag.  Look for a cycle with consistent decisions.
+                cyc = feasible_cycle(fn, rest, head)
             line = fn.blocks[head]["term"].get("line")
             key = "%s | loop" % fn.path
             if cyc is None:
